@@ -352,8 +352,15 @@ class FrameOb(Obligation):
             names.set(s, "nm%d" % i)
         before = self.snapshot()
         changed = []
-        for sc, prov in ((self.sc, make_provider()), (self.sc, None), (self.sc2, None)):
-            run(sc, names, prov)
+        from sqllineage.config import SQLLineageConfig
+
+        for sc, prov, tsql in ((self.sc, make_provider(), False), (self.sc, None, False), (self.sc2, None, False), (self.sc2, None, True)):
+            if tsql:
+                # T-SQL no-semicolon mode fills the analyzer's split cache: it must live and die with the run
+                with SQLLineageConfig(TSQL_NO_SEMICOLON=True):
+                    dump_runner(sc.runner(names, tsql=True))
+            else:
+                run(sc, names, prov)
             after = self.snapshot()
             changed += [k for k in after if before.get(k) != after[k] and "lx_" not in k]
         return Verdict(not changed, {"changed": sorted(set(changed))})
@@ -362,7 +369,47 @@ class FrameOb(Obligation):
         return verdict.data
 
     def replay(self, conc, verdict_ok):
-        return {"real_ok": verdict_ok, "lifted_matches": True, "detail": conc}
+        # the same audit on the unmodified library in the replay worker: concrete scripts, every mode
+        import inspect
+        import textwrap
+
+        from lx import replay as R
+
+        snap = textwrap.dedent(inspect.getsource(FrameOb.snapshot)).replace("@staticmethod\n", "")
+        r = R.run_code(FRAME_REPLAY % {"snap": snap})
+        if not r.get("ok"):
+            return {"real_ok": False, "lifted_matches": False, "detail": r}
+        res = r["result"]
+        return {"real_ok": not res["changed"], "lifted_matches": (not res["changed"]) == verdict_ok, "detail": res}
+
+
+FRAME_REPLAY = r'''
+import warnings
+warnings.simplefilter("ignore")
+%(snap)s
+from sqllineage.runner import LineageRunner
+from sqllineage.config import SQLLineageConfig
+from sqllineage.core.metadata.dummy import DummyMetaDataProvider
+ANSI = "CREATE TABLE s.m AS SELECT ca, cb FROM s.ta;\nINSERT INTO s.w SELECT * FROM s.m;\nSELECT ca FROM s.m AS a JOIN s.tb AS b ON a.id = b.id"
+TSQL = "INSERT INTO s.w SELECT ca FROM s.ta\nSELECT cb INTO s.v FROM s.w\nSELECT ca FROM s.v"
+before = snapshot()
+changed = []
+def audit():
+    after = snapshot()
+    return [k for k in after if before.get(k) != after[k]]
+LineageRunner(ANSI, metadata_provider=DummyMetaDataProvider({"s.ta": ["ca", "cb"]})).get_column_lineage(); changed += audit()
+LineageRunner(ANSI).get_column_lineage(); changed += audit()
+LineageRunner(TSQL.replace("\n", ";\n"), dialect="tsql").get_column_lineage(); changed += audit()
+with SQLLineageConfig(TSQL_NO_SEMICOLON=True):
+    LineageRunner(TSQL, dialect="tsql").get_column_lineage()
+changed += audit()
+try:
+    LineageRunner("INSERT INTO s.w SELECT ca FROM s.ta;\nSELECT FROM FROM", metadata_provider=DummyMetaDataProvider({"s.ta": ["ca"]})).get_column_lineage()
+except Exception:
+    pass
+changed += audit()
+result = {"changed": sorted(set(changed))}
+'''
 
 
 def obligations(tier, seed):
